@@ -18,8 +18,6 @@ BLOCK_LAYOUTS = [[(2,), (3,)], [(1,), (2, 2)], [(2, 3), (2,), (1,)], [(3,), (3,)
 # L21Norm: the axis handling lives on N-d arrays
 ND_SHAPES = [(2, 2), (2, 3), (3, 2), (1, 4), (2, 1, 3), (2, 3, 2), (3, 2, 2), (2, 2, 1, 2)]
 EPS = 2.0**-6
-# set by c02.correspond: whether L1MinusL2Norm.prox accepts block arrays on the tree under test (known finding l1l2-blockarray)
-L1L2_BLOCKS = False
 
 
 # functionals wrapped by the generic Loss: non-even ones (nonneg) expose the orientation of the translation
@@ -57,7 +55,7 @@ def layout(rng, fam, force_plain=False):
     d = {}
     if fam == "nuclear":
         d["shape"] = list(pick(rng, [(2, 2), (2, 3), (3, 2), (3, 3), (1, 3), (4, 2)]))
-    elif (fam in BLOCK_OK or (fam == "l1l2" and L1L2_BLOCKS)) and not force_plain and rng.random() < 0.3:
+    elif fam in BLOCK_OK and not force_plain and rng.random() < 0.3:
         d["shape"] = None
         d["blocks"] = [list(s) for s in pick(rng, BLOCK_LAYOUTS)]
     elif fam == "l21" and rng.random() < 0.75:
